@@ -58,28 +58,7 @@ func runC19(p *Program, r *Result) {
 		r.Unk(sub, "paths", "", "more than 4096 acyclic paths")
 		return
 	}
-	isTypeEq := func(a Atom) bool {
-		if a.Kind != "cmp" || a.Op != "==" {
-			return false
-		}
-		x, y := short(a.X.String()), short(a.Y.String())
-		m := func(s, t string) bool {
-			return strings.HasPrefix(s, "Field(Elem(P1,") && strings.HasSuffix(s, ".Type)") &&
-				t == "invoke (ssh.PublicKey).Type(Field(Recv.pubKey))"
-		}
-		return m(x, y) || m(y, x)
-	}
-	isTagEq := func(a Atom) bool {
-		if a.Kind != "cmp" || a.Op != "==" {
-			return false
-		}
-		x, y := short(a.X.String()), short(a.Y.String())
-		m := func(s, t string) bool {
-			return strings.HasPrefix(s, "Elem(Field(Elem(P1,") && strings.HasSuffix(s, ".Args), 0)") &&
-				t == "agessh.sshFingerprint(Field(Recv.pubKey))"
-		}
-		return m(x, y) || m(y, x)
-	}
+	isTypeEq, isTagEq := sshTypeEqAtom, sshTagEqAtom
 	if len(prompts) == 0 {
 		r.Unk(sub, "call:passphrase", "", "no call of the passphrase field found in Unwrap")
 	}
@@ -205,6 +184,18 @@ func runC19(p *Program, r *Result) {
 
 	// R19.4 match loop shape
 	r.Rule("R19.4", "the match loop ranges over all stanzas and leaves early only with an error or a match", 1)
+	checkEncryptedSSHStanzaLoop(p, r)
+}
+
+// checkEncryptedSSHStanzaLoop is rule R19.4 (shared with C01 R01.10).
+func checkEncryptedSSHStanzaLoop(p *Program, r *Result) {
+	fn := r.anchor(pkgSSH, "EncryptedSSHIdentity", "Unwrap")
+	if fn == nil {
+		return
+	}
+	tb := p.TB(fn)
+	sub := fn.String()
+	isTypeEq, isTagEq := sshTypeEqAtom, sshTagEqAtom
 	loops := loopOver(fn, func(v ssa.Value) bool { return len(fn.Params) > 1 && v == fn.Params[1] })
 	if len(loops) != 1 {
 		r.Unk(sub, "loop:stanzas", "", "expected exactly one range loop over the stanzas parameter")
@@ -270,4 +261,27 @@ func runC19(p *Program, r *Result) {
 			r.OK(sub, "loop:stanzas", r.pos(l.Header.Instrs[0]), "range over the whole stanza slice; early exits are error returns or the match")
 		}
 	}
+}
+
+func sshTypeEqAtom(a Atom) bool {
+	if a.Kind != "cmp" || a.Op != "==" {
+		return false
+	}
+	x, y := short(a.X.String()), short(a.Y.String())
+	m := func(s, t string) bool {
+		return strings.HasPrefix(s, "Field(Elem(P1,") && strings.HasSuffix(s, ".Type)") &&
+			t == "invoke (ssh.PublicKey).Type(Field(Recv.pubKey))"
+	}
+	return m(x, y) || m(y, x)
+}
+func sshTagEqAtom(a Atom) bool {
+	if a.Kind != "cmp" || a.Op != "==" {
+		return false
+	}
+	x, y := short(a.X.String()), short(a.Y.String())
+	m := func(s, t string) bool {
+		return strings.HasPrefix(s, "Elem(Field(Elem(P1,") && strings.HasSuffix(s, ".Args), 0)") &&
+			t == "agessh.sshFingerprint(Field(Recv.pubKey))"
+	}
+	return m(x, y) || m(y, x)
 }
